@@ -4,7 +4,7 @@
 (*                                                                         *)
 (* Any!CallOK is a predicate on a call with its element events; to let TLC *)
 (* explore L1 on its own this module supplies a LIBERAL GENERATOR Ref: for *)
-(* each call a set of outcomes [ev, res, a2] that covers every alternative *)
+(* each call a set of outcomes [ev, res, S] that covers every alternative  *)
 (* the standard allows and some implementation might choose:               *)
 (*   - move construction / move assignment hands the object over (pointer  *)
 (*     steal), relocates it (move-construct + destroy), leaves a moved-from*)
@@ -18,7 +18,7 @@
 (* of "any conforming any", a superset of what xtl can reach (e.g. any     *)
 (* objects containing a moved-from object).  The invariants and action     *)
 (* properties of Any are checked on all of them.  States are kept in       *)
-(* canonical form (Any!CanonA).                                            *)
+(* canonical form (Any!CanonA, CanonU).                                    *)
 (***************************************************************************)
 EXTENDS Any
 
@@ -30,88 +30,117 @@ n2 == NA + 2
 T(x) == lt.typ[x]
 V(x) == lt.val[x]
 DelIf(x) == IF Has(x) THEN <<EDtor(x, T(x))>> ELSE <<>>
-Out(ev, res, a2) == [ev |-> ev, res |-> res, a2 |-> a2]
-Upd(k, x) == [a EXCEPT ![k] = x]
-Upd2(k, x, j, y) == [a EXCEPT ![k] = x, ![j] = y]
+St == [a |-> a, u |-> u]
+Put(S, k, x, uu) == [a |-> [S.a EXCEPT ![k] = x], u |-> [S.u EXCEPT ![k] = uu]]
+PutT(S, k, id) == Put(S, k, id, NoU)                       \* a tracked object / EMPTY / RAW
+Cp(j, n) == [u[j] EXCEPT !.loc = n]                         \* an equal untracked object at a new place
+Gone(j) == [u[j] EXCEPT !.v = MOVED]
+Out(ev, res, S) == [ev |-> ev, res |-> res, S |-> S]
 Relocatable(x) == T(x) # "STM"          \* nothrow move constructor: an implementation may move the object itself
+MovableAway == {"Str", "Sp", "Nest"}    \* untracked types whose moved-from value differs from the original
 FormKind(f) == IF f = "rv" THEN "move" ELSE "copy"
+Capable(t, kind) == (kind = "copy" /\ t \notin NothrowCopy) \/ (kind = "move" /\ t = "STM")    \* can be made to throw
+(* what is in any i, placed into any k at a fresh place n *)
+Into(S, k, i, n) == IF a[i] = UNT THEN Put(S, k, UNT, Cp(i, n)) ELSE PutT(S, k, a[i])
 
 Ref(op, k, g) ==
     LET x == a[k]
-        y == IF "j" \in DOMAIN g THEN a[g.j] ELSE EMPTY
         j == IF "j" \in DOMAIN g THEN g.j ELSE k
+        y == a[j]
     IN
-    CASE op = "DefaultConstruct" -> {Out(<<>>, NoRes, Upd(k, EMPTY))}
+    CASE op = "DefaultConstruct" -> {Out(<<>>, NoRes, PutT(St, k, EMPTY))}
       [] op \in {"Construct", "AssignValue"} ->
-            LET kind == FormKind(g.form)
-                cap  == kind = "copy" \/ g.t = "STM"
-                arg  == ECtor(n1, g.t, "value", 0, g.v)
-            IN IF g.fuse = 1 /\ cap
-                 THEN {Out(<<arg, EThrow(g.t, kind, n1), EDtor(n1, g.t)>>, FuseRes, a)}
-                 ELSE {Out(<<arg, ECtor(n2, g.t, kind, n1, g.v)>> \o DelIf(x) \o <<EDtor(n1, g.t)>>, NoRes, Upd(k, n2))}
+            IF g.t \in UntrackedTypes
+              THEN {Out(DelIf(x), NoRes, Put(St, k, UNT, [t |-> g.t, v |-> g.v, loc |-> n1]))}
+              ELSE LET kind == FormKind(g.form)
+                       arg  == ECtor(n1, g.t, "value", 0, g.v)
+                   IN IF g.fuse = 1 /\ Capable(g.t, kind)
+                        THEN {Out(<<arg, EThrow(g.t, kind, n1), EDtor(n1, g.t)>>, FuseRes, St)}
+                        ELSE {Out(<<arg, ECtor(n2, g.t, kind, n1, g.v)>> \o DelIf(x) \o <<EDtor(n1, g.t)>>, NoRes, PutT(St, k, n2))}
       [] op = "CopyConstruct" ->
-            IF y = EMPTY THEN {Out(<<>>, NoRes, Upd(k, EMPTY))}
-            ELSE IF g.fuse = 1 THEN {Out(<<EThrow(T(y), "copy", y)>>, FuseRes, a)}
-            ELSE {Out(<<ECtor(n1, T(y), "copy", y, V(y))>>, NoRes, Upd(k, n1))}
+            IF y = EMPTY THEN {Out(<<>>, NoRes, PutT(St, k, EMPTY))}
+            ELSE IF y = UNT THEN {Out(<<>>, NoRes, Put(St, k, UNT, Cp(j, n1)))}
+            ELSE IF g.fuse = 1 /\ Capable(T(y), "copy") THEN {Out(<<EThrow(T(y), "copy", y)>>, FuseRes, St)}
+            ELSE {Out(<<ECtor(n1, T(y), "copy", y, V(y))>>, NoRes, PutT(St, k, n1))}
       [] op = "MoveConstruct" ->
-            IF y = EMPTY THEN {Out(<<>>, NoRes, Upd(k, EMPTY))}
-            ELSE {Out(<<>>, NoRes, Upd2(k, y, j, EMPTY))}                                               \* steal
+            IF y = EMPTY THEN {Out(<<>>, NoRes, PutT(St, k, EMPTY))}
+            ELSE IF y = UNT
+              THEN {Out(<<>>, NoRes, PutT(Put(St, k, UNT, Cp(j, n1)), j, EMPTY)),                               \* source left empty
+                    Out(<<>>, NoRes, Put(Put(St, k, UNT, Cp(j, n1)), j, UNT,
+                                         IF u[j].t \in MovableAway THEN Gone(j) ELSE u[j]))}                     \* source left holding a moved-from object
+            ELSE {Out(<<>>, NoRes, PutT(PutT(St, k, y), j, EMPTY))}                                              \* steal
                  \cup (IF Relocatable(y)
-                         THEN {Out(<<ECtor(n1, T(y), "move", y, V(y)), EDtor(y, T(y))>>, NoRes, Upd2(k, n1, j, EMPTY)),  \* relocate
-                               Out(<<ECtor(n1, T(y), "move", y, V(y))>>, NoRes, Upd(k, n1))}                         \* leave moved-from
+                         THEN {Out(<<ECtor(n1, T(y), "move", y, V(y)), EDtor(y, T(y))>>, NoRes, PutT(PutT(St, k, n1), j, EMPTY)),  \* relocate
+                               Out(<<ECtor(n1, T(y), "move", y, V(y))>>, NoRes, PutT(St, k, n1))}                         \* leave moved-from
                          ELSE {})
       [] op = "CopyAssign" ->
-            IF j = k THEN {Out(<<>>, NoRes, a)}
-            ELSE IF y = EMPTY THEN {Out(DelIf(x), NoRes, Upd(k, EMPTY))}
-            ELSE IF g.fuse = 1 THEN {Out(<<EThrow(T(y), "copy", y)>>, FuseRes, a)}
-            ELSE {Out(<<ECtor(n1, T(y), "copy", y, V(y))>> \o DelIf(x), NoRes, Upd(k, n1))}
+            IF j = k THEN {Out(<<>>, NoRes, St)}
+            ELSE IF y = EMPTY THEN {Out(DelIf(x), NoRes, PutT(St, k, EMPTY))}
+            ELSE IF y = UNT THEN {Out(DelIf(x), NoRes, Put(St, k, UNT, Cp(j, n1)))}
+            ELSE IF g.fuse = 1 /\ Capable(T(y), "copy") THEN {Out(<<EThrow(T(y), "copy", y)>>, FuseRes, St)}
+            ELSE {Out(<<ECtor(n1, T(y), "copy", y, V(y))>> \o DelIf(x), NoRes, PutT(St, k, n1))}
       [] op = "MoveAssign" ->
-            IF j = k THEN {Out(<<>>, NoRes, a), Out(DelIf(x), NoRes, Upd(k, EMPTY))}
-            ELSE IF y = EMPTY THEN {Out(DelIf(x), NoRes, Upd(k, EMPTY))}
-            ELSE {Out(DelIf(x), NoRes, Upd2(k, y, j, EMPTY)),                                            \* steal
-                  Out(<<>>, NoRes, Upd2(k, y, j, x))}                                                    \* exchange
-                 \cup (IF Relocatable(y)
-                         THEN {Out(<<ECtor(n1, T(y), "move", y, V(y))>> \o DelIf(x), NoRes, Upd(k, n1))}   \* leave moved-from
+            IF j = k THEN {Out(<<>>, NoRes, St), Out(DelIf(x), NoRes, PutT(St, k, EMPTY))}
+            ELSE IF y = EMPTY THEN {Out(DelIf(x), NoRes, PutT(St, k, EMPTY))}
+            ELSE {Out(DelIf(x), NoRes, PutT(Into(St, k, j, n1), j, EMPTY)),                                      \* steal
+                  Out(<<>>, NoRes, Into(Into(St, k, j, n1), j, k, n2))}                                          \* exchange
+                 \cup (IF Has(y) /\ Relocatable(y)
+                         THEN {Out(<<ECtor(n1, T(y), "move", y, V(y))>> \o DelIf(x), NoRes, PutT(St, k, n1))}   \* leave moved-from
+                         ELSE {})
+                 \cup (IF y = UNT /\ u[j].t \in MovableAway
+                         THEN {Out(DelIf(x), NoRes, Put(Put(St, k, UNT, Cp(j, n1)), j, UNT, Gone(j)))}
                          ELSE {})
       [] op \in {"Swap", "StdSwap"} ->
-            {Out(<<>>, NoRes, Upd2(k, y, j, x))}
+            {Out(<<>>, NoRes, IF j = k THEN St ELSE Into(Into(St, k, j, n1), j, k, n2))}
             \cup (IF j # k /\ Has(x) /\ Has(y) /\ Relocatable(x) /\ Relocatable(y)
                     THEN {Out(<<ECtor(n1, T(x), "move", x, V(x)), EDtor(x, T(x)), ECtor(n2, T(y), "move", y, V(y)), EDtor(y, T(y))>>,
-                              NoRes, Upd2(k, n2, j, n1))}
+                              NoRes, PutT(PutT(St, k, n2), j, n1))}
                     ELSE {})
-      [] op \in {"AReset", "AClear"} -> {Out(DelIf(x), NoRes, Upd(k, EMPTY))}
-      [] op \in {"Destroy", "DestroyIf"} -> {Out(DelIf(x), NoRes, Upd(k, RAW))}
-      [] op = "HasValue" -> {Out(<<>>, [NoRes EXCEPT !.v = IF Has(x) THEN 1 ELSE 0], a)}
-      [] op = "Empty"    -> {Out(<<>>, [NoRes EXCEPT !.v = IF Has(x) THEN 0 ELSE 1], a)}
-      [] op = "Type"     -> {Out(<<>>, [NoRes EXCEPT !.ty = IF Has(x) THEN T(x) ELSE "void"], a)}
+      [] op \in {"AReset", "AClear"} -> {Out(DelIf(x), NoRes, PutT(St, k, EMPTY))}
+      [] op \in {"Destroy", "DestroyIf"} -> {Out(DelIf(x), NoRes, PutT(St, k, RAW))}
+      [] op = "HasValue" -> {Out(<<>>, [NoRes EXCEPT !.v = IF x >= UNT THEN 1 ELSE 0], St)}
+      [] op = "Empty"    -> {Out(<<>>, [NoRes EXCEPT !.v = IF x >= UNT THEN 0 ELSE 1], St)}
+      [] op = "Type"     -> {Out(<<>>, [NoRes EXCEPT !.ty = IF Has(x) THEN T(x) ELSE IF x = UNT THEN u[k].t ELSE "void"], St)}
       [] op = "Cast" ->
-            LET hit == g.form \notin NullForms /\ Has(x) /\ T(x) = g.t IN
-            IF ~hit THEN {Out(<<>>, IF g.form \in PtrForms \cup NullForms THEN NullRes ELSE BadCast, a)}
-            ELSE IF g.form \notin ValForms THEN {Out(<<>>, [NoRes EXCEPT !.id = x, !.v = V(x)], a)}
-            ELSE IF g.fuse = 1 THEN {Out(<<EThrow(T(x), "copy", x)>>, FuseRes, a)}
-            ELSE {Out(<<ECtor(n1, T(x), "copy", x, V(x)), EDtor(n1, T(x))>>, [NoRes EXCEPT !.id = n1, !.v = V(x)], a)}
-                 \cup (IF g.form = "v_r" /\ Relocatable(x)
-                         THEN {Out(<<ECtor(n1, T(x), "move", x, V(x)), EDtor(n1, T(x))>>, [NoRes EXCEPT !.id = n1, !.v = V(x)], a)}
+            LET hit == g.form \notin NullForms /\ x >= UNT /\ (IF x = UNT THEN u[k].t ELSE T(x)) = g.t IN
+            IF ~hit THEN {Out(<<>>, IF g.form \in PtrForms \cup NullForms THEN NullRes ELSE CastFails, St)}
+            ELSE IF x = UNT
+              THEN IF g.form \notin ValForms THEN {Out(<<>>, [NoRes EXCEPT !.loc = u[k].loc, !.v = u[k].v], St)}
+                   ELSE {Out(<<>>, [NoRes EXCEPT !.v = u[k].v], St)}
+                        \cup (IF g.form \in RvalForms /\ u[k].t \in MovableAway
+                                THEN {Out(<<>>, [NoRes EXCEPT !.v = u[k].v], Put(St, k, UNT, Gone(k)))}
+                                ELSE {})
+            ELSE IF g.form \notin ValForms THEN {Out(<<>>, [NoRes EXCEPT !.id = x, !.v = V(x)], St)}
+            ELSE IF g.fuse = 1 /\ Capable(T(x), "copy") THEN {Out(<<EThrow(T(x), "copy", x)>>, FuseRes, St)}
+            ELSE {Out(<<ECtor(n1, T(x), "copy", x, V(x)), EDtor(n1, T(x))>>, [NoRes EXCEPT !.id = n1, !.v = V(x)], St)}
+                 \cup (IF g.form \in RvalForms /\ Relocatable(x)
+                         THEN {Out(<<ECtor(n1, T(x), "move", x, V(x)), EDtor(n1, T(x))>>, [NoRes EXCEPT !.id = n1, !.v = V(x)], St)}
                          ELSE {})
       [] op = "SetVia" ->
-            IF Has(x) /\ T(x) = g.t THEN {Out(<<ESet(x, g.t, g.v)>>, [NoRes EXCEPT !.id = x, !.v = g.v], a)}
-            ELSE {Out(<<>>, NullRes, a)}
+            IF x = UNT /\ u[k].t = g.t
+              THEN {Out(<<>>, [NoRes EXCEPT !.loc = u[k].loc, !.v = g.v], Put(St, k, UNT, [u[k] EXCEPT !.v = g.v]))}
+            ELSE IF Has(x) /\ T(x) = g.t THEN {Out(<<ESet(x, g.t, g.v)>>, [NoRes EXCEPT !.id = x, !.v = g.v], St)}
+            ELSE {Out(<<>>, NullRes, St)}
       [] OTHER -> {}
 
 Do(op, k, g) ==
     /\ Pre(op, k, g)
     /\ \E o \in Ref(op, k, g) :
-          /\ Assert(CallOK(op, k, g, o.ev, o.res, o.a2), <<"generator outcome rejected by L1", op, k, g, o>>)
-          /\ a' = CanonA(o.a2)
-          /\ lt' = CanonL(o.a2, Fold(lt, o.ev, 1).L)
+          /\ Assert(CallOK(op, k, g, o.ev, o.res, o.S.a, o.S.u, SpcOf(o.S.a, o.S.u)), <<"generator outcome rejected by L1", op, k, g, o>>)
+          /\ a' = CanonA(o.S.a)
+          /\ u' = CanonU(o.S.a, o.S.u)
+          /\ lt' = CanonL(o.S.a, Fold(lt, o.ev, 1).L)
+          /\ env' = env
           /\ last' = [op |-> op, k |-> k, a |-> g, ev |-> o.ev, res |-> o.res]
-          /\ pre' = [a |-> a, lt |-> lt]
+          /\ pre' = [a |-> a, u |-> u, lt |-> lt]
 
-CastTargets == Types \cup {"Int"}
+CastTargets == Types \cup {"CharP"}
 
 NDefaultConstruct == \E k \in Anys, f \in Fuses : Do("DefaultConstruct", k, [fuse |-> f])
-NConstruct   == \E k \in Anys, f \in Fuses, t \in Types, v \in Vals, fm \in ValueForms : Do("Construct", k, [t |-> t, v |-> v, form |-> fm, fuse |-> f])
-NAssignValue == \E k \in Anys, f \in Fuses, t \in Types, v \in Vals, fm \in ValueForms : Do("AssignValue", k, [t |-> t, v |-> v, form |-> fm, fuse |-> f])
+NConstruct   == \E k \in Anys, f \in Fuses, t \in Types, v \in Vals, fm \in ValueForms \cup {"decay"} :
+                    fm \in FormsOf(t) /\ Do("Construct", k, [t |-> t, v |-> v, form |-> fm, fuse |-> f])
+NAssignValue == \E k \in Anys, f \in Fuses, t \in Types, v \in Vals, fm \in ValueForms \cup {"decay"} :
+                    fm \in FormsOf(t) /\ Do("AssignValue", k, [t |-> t, v |-> v, form |-> fm, fuse |-> f])
 NCopyConstruct == \E k \in Anys, f \in Fuses, j \in Anys : Do("CopyConstruct", k, [j |-> j, fuse |-> f])
 NMoveConstruct == \E k \in Anys, f \in Fuses, j \in Anys : Do("MoveConstruct", k, [j |-> j, fuse |-> f])
 NCopyAssign  == \E k \in Anys, f \in Fuses, j \in Anys : Do("CopyAssign", k, [j |-> j, fuse |-> f])
@@ -131,14 +160,15 @@ NSetVia      == \E k \in Anys, f \in Fuses, t \in Types, v \in Vals : Do("SetVia
 Next == \/ NDefaultConstruct \/ NConstruct \/ NAssignValue \/ NCopyConstruct \/ NMoveConstruct \/ NCopyAssign \/ NMoveAssign
         \/ NSwap \/ NStdSwap \/ NAReset \/ NAClear \/ NDestroy \/ NDestroyIf \/ NHasValue \/ NEmpty \/ NType \/ NCast \/ NSetVia
 
-(* per-operation transition counts are collected from these lines *)
-EmitOp == CountOps => PrintT("@O@" \o last'.op \o ":" \o last'.res.exc)
+(* per-operation transition counts are collected from these lines; "u" marks a call on an any holding an untracked payload *)
+EmitOp == CountOps => PrintT("@O@" \o last'.op \o ":" \o last'.res.exc
+                             \o (IF last'.k \in Anys /\ a[last'.k] = UNT THEN ":u" ELSE ""))
 
 MCInit == InitWith(NA)
 Spec == MCInit /\ [][Next]_vars
 
 AllCastForms == CastForms
-FewCastForms == {"p_m", "p_cc", "p_n", "v_m", "v_r", "r_mc"}
+FewCastForms == {"p_m", "p_cc", "p_n", "v_m", "v_r", "r_mc", "x_r"}
 
 (* reachable: an any containing a moved-from (still live) object - the case xtl never produces *)
 SomeMovedFromHeld == \E k \in Anys : Has(a[k]) /\ lt.val[a[k]] = MOVED
